@@ -3,6 +3,9 @@ package props
 import (
 	"bytes"
 	"fmt"
+	"github.com/wokdav/gopki/generator/config"
+	"github.com/wokdav/gopki/generator/db"
+	"github.com/wokdav/gopki/generator/db/filesystem"
 	"testing"
 
 	"pgregory.net/rapid"
@@ -317,7 +320,7 @@ func genC19Base(t *rapid.T) c19Base {
 func TestC19(t *testing.T) {
 	r := core.Start(t, "C19")
 	defer r.Finish()
-	r.Rule = "base case: root and subordinate with pre-placed keys (RSA-1024/2048 preferred so that PKCS#1 v1.5 signatures are deterministic; also P-256, P-384, brainpoolP256r1), configured serials, absolute validity, SKI/AKI hash plus up to 3 further extensions each; in a quarter of the bases the subordinate's artifact holds a certificate request instead of a private key; six manipulation values drawn once (version from {0,1,2,3,4,-1,-128,127,128,255,256,65535,2^31,2^40+3}, three valid OIDs (one in three taken from the signature / key algorithm OIDs gopki itself implements), two byte values in every raw form up to 1500 bytes). Half of the bases reference a profile (so that profile merging runs). For each base ALL 64 subsets of the six keys are applied to the root or the subordinate and compared with the unmanipulated run of the same configuration. Oracle: named fields carry exactly the given value; every other field equals the unmanipulated certificate; key identifiers follow the bits actually in the certificates; unless the signature value itself is manipulated, the signature verifies over the raw manipulated TBS bytes with the real issuer key (taken from the issuer's PRIVATE KEY block) under the configured algorithm; outer-only manipulations leave the TBS bytes untouched; subsets of outer manipulations only are applied to a directory that already holds the unmanipulated certificates (same to-be-signed bytes before and after); for a quarter of the subsets (and all outer-only ones) the manipulations are then removed from the configuration again and the regenerated certificate must equal the unmanipulated one and verify. Non-trivial = subset of size >= 2 or a TBS-internal manipulation on the subordinate; distinct by base + subset."
+	r.Rule = "base case: root and subordinate with pre-placed keys (RSA-1024/2048 preferred so that PKCS#1 v1.5 signatures are deterministic; also P-256, P-384, brainpoolP256r1), configured serials, absolute validity, SKI/AKI hash plus up to 3 further extensions each; in a quarter of the bases the subordinate's artifact holds a certificate request instead of a private key; six manipulation values drawn once (version from {0,1,2,3,4,-1,-128,127,128,255,256,65535,2^31,2^40+3}, three valid OIDs (one in three taken from the signature / key algorithm OIDs gopki itself implements), two byte values in every raw form up to 1500 bytes). Half of the bases reference a profile (so that profile merging runs). For each base ALL 64 subsets of the six keys are applied to the root or the subordinate and compared with the unmanipulated run of the same configuration. Oracle: named fields carry exactly the given value; every other field equals the unmanipulated certificate; key identifiers follow the bits actually in the certificates; unless the signature value itself is manipulated, the signature verifies over the raw manipulated TBS bytes with the real issuer key (taken from the issuer's PRIVATE KEY block) under the configured algorithm; outer-only manipulations leave the TBS bytes untouched; subsets of outer manipulations only are applied to a directory that already holds the unmanipulated certificates (same to-be-signed bytes before and after); for a quarter of the subsets (and all outer-only ones) the manipulations are then removed from the configuration again and the regenerated certificate must equal the unmanipulated one and verify. A session on one open database (three key algorithms): the issuer's public-key-bits manipulation is added or changed and the issuer signed again through db.AddAndSign; subordinates signed afterwards carry an authority key identifier hashed from the bits in the issuer's certificate as it is now. Non-trivial = subset of size >= 2 or a TBS-internal manipulation on the subordinate; distinct by base + subset."
 	r.Assumptions = []string{"a manipulated AlgorithmIdentifier is exactly what the configuration gives: the OID and nothing else (no parameters)", "an absent version field reads as 0"}
 	wrap := func(c c19Case) *core.Failure {
 		bits := 0
@@ -360,8 +363,21 @@ func TestC19(t *testing.T) {
 		return nil
 	}
 	core.Register(r, "hostile", hostile)
+	session := func(c c19Session) *core.Failure {
+		r.Case(fmt.Sprintf("session %+v", c), "session:issuer-manipulation-changed-on-open-database")
+		return checkC19Session(c)
+	}
+	core.Register(r, "session", session)
 	if r.Replays() {
 		return
+	}
+	for k, alg := range []string{"P-256", "RSA-1024", "brainpoolP256r1"} {
+		for _, first := range []bool{false, true} {
+			if r.Mine(k) {
+				c := c19Session{Alg: alg, FirstManipulated: first}
+				r.Report("session", c, session(c))
+			}
+		}
 	}
 	core.Rapid(r, "base", r.Pick(48, 3000), genC19Base, all)
 	core.Rapid(r, "hostile", r.Pick(150, 5000), func(t *rapid.T) c19Case {
@@ -379,4 +395,106 @@ func TestC19(t *testing.T) {
 		return c19Case{b, mask}
 	}, hostile)
 	_ = der.Null
+}
+
+// ---- a session on one open database: the issuer's public-key-bits manipulation is added / changed and the issuer signed
+// again; subordinates signed afterwards carry an authority key identifier hashed from the bits that are in the issuer's
+// certificate now (not from those of an earlier one)
+
+type c19Session struct {
+	Alg              string
+	FirstManipulated bool // the issuer's first certificate already carries manipulated bits (else the manipulation is added later)
+}
+
+func checkC19Session(c c19Session) *core.Failure {
+	sig := fittingSigAlgs(keyKind(c.Alg))[1]
+	ca := core.Entity{File: "ca.yaml", Subject: []core.RDN{{Key: "CN", Value: "C19 session CA"}}, KeyAlg: c.Alg, SigAlg: sig,
+		Extensions: []core.Extension{{Kind: core.KSKI, HasContent: true, SKI: "hash"}}}
+	if c.FirstManipulated {
+		ca.Manip = &core.Manip{TbsPubKey: core.Bin([]byte{0x04, 0x11, 0x22, 0x33})}
+	}
+	mk := func(name string) core.Entity {
+		return core.Entity{File: name + ".yaml", Subject: []core.RDN{{Key: "CN", Value: "C19 session " + name}}, Issuer: "ca", SigAlg: sig,
+			Extensions: []core.Extension{{Kind: core.KAKI, HasContent: true, AKI: "hash"}}}
+	}
+	d := core.NewDir()
+	d.Tick(10)
+	dbase := filesystem.NewFilesystemDatabase(&core.MemFS{D: d})
+	if err := dbase.Open(); err != nil {
+		return core.Failf("C19/session/setup", "open: %v", err)
+	}
+	defer dbase.Close()
+	add := func(e *core.Entity) (err error, pan any) {
+		defer func() { pan = recover() }()
+		parsed, perr := config.ParseConfig(bytes.NewReader(e.Render()))
+		if perr != nil {
+			return perr, nil
+		}
+		cc, ok := parsed.(*config.CertificateContent)
+		if !ok {
+			return fmt.Errorf("not a certificate configuration"), nil
+		}
+		cc.Alias = e.EffAlias()
+		_, err = db.AddAndSign(dbase, *cc, true)
+		return
+	}
+	step := func(what string, e *core.Entity) *core.Failure {
+		err, pan := add(e)
+		if pan != nil {
+			return core.Failf("C19/panic", "%s: db.AddAndSign panicked: %v", what, pan)
+		}
+		if err != nil {
+			return core.Failf("C19/session/refused", "%s: %v", what, err)
+		}
+		d.Tick(3)
+		return nil
+	}
+	verify := func(what string, sub *core.Entity) *core.Failure {
+		cad, err := readEntity(d, &ca)
+		if err != nil || cad.Cert == nil {
+			return core.Failf("C19/session/no-certificate", "%s: CA: %v", what, err)
+		}
+		if ca.Manip != nil && !bytes.Equal(cad.Cert.SPKIBits, ca.Manip.TbsPubKey.Value()) {
+			return core.Failf("C19/pubkey-bits-not-applied", "%s: the CA's subjectPublicKey %s is not the manipulated value %s", what, hexs(cad.Cert.SPKIBits), hexs(ca.Manip.TbsPubKey.Value()))
+		}
+		sd, err := readEntity(d, sub)
+		if err != nil || sd.Cert == nil {
+			return core.Failf("C19/session/no-certificate", "%s: %s: %v", what, sub.EffAlias(), err)
+		}
+		return compareExtensions("C19/session", sd, sub.Extensions, extCtx{SubjectBits: sd.Cert.SPKIBits, IssuerBits: cad.Cert.SPKIBits}, what+": "+sub.EffAlias())
+	}
+	s1, s2 := mk("sub1"), mk("sub2")
+	for _, st := range []struct {
+		what string
+		run  func() *core.Failure
+	}{
+		{"CA signed", func() *core.Failure { return step("CA", &ca) }},
+		{"first subordinate", func() *core.Failure {
+			if f := step("sub1", &s1); f != nil {
+				return f
+			}
+			return verify("first subordinate", &s1)
+		}},
+		{"CA signed again with other public-key bits", func() *core.Failure {
+			ca.Manip = &core.Manip{TbsPubKey: core.Bin([]byte{0x04, 0xaa, 0xbb, 0xcc, 0xdd})}
+			return step("CA again", &ca)
+		}},
+		{"second subordinate", func() *core.Failure {
+			if f := step("sub2", &s2); f != nil {
+				return f
+			}
+			return verify("after the CA was signed again: new subordinate", &s2)
+		}},
+		{"first subordinate signed again", func() *core.Failure {
+			if f := step("sub1 again", &s1); f != nil {
+				return f
+			}
+			return verify("after the CA was signed again: first subordinate signed again", &s1)
+		}},
+	} {
+		if f := st.run(); f != nil {
+			return f
+		}
+	}
+	return nil
 }
